@@ -206,7 +206,7 @@ def Tracks (c0 : Int) (st : CState) : Prop := st.last = streamLast c0 st.out st.
 theorem tracks_of_inv {s : Server} {c0 : Int} {st : CState} (h : Inv s c0 st) : Tracks c0 st := by
   obtain ⟨j, ho, hl⟩ := h
   unfold Tracks
-  have hlen : (emit ((s.later c0).take j)).length = ((s.later c0).take j).length := by simp [emit]
+  have hlen : (emit ((vis s c0).take j)).length = ((vis s c0).take j).length := by simp [emit]
   rw [ho, streamLast_emit, hlen, List.take_length, hl]
 
 /-- every request carried the `last_sequence` of some earlier moment of the stream, later requests later moments -/
@@ -238,16 +238,19 @@ theorem reqsOk_step {c0 : Int} {st st' : CState} {more : List (Int × List Char)
 
 /-! ## a growing log -/
 
-theorem later_of_prefix {s s' : Server} (hp : s.log <+: s'.log) (c : Int) : ∃ m, s'.later c = s.later c ++ m := by
+theorem later_of_prefix {s s' : Server} (hp : s.log <+: s'.log) (hv : s.inclInternal = s'.inclInternal) (c : Int) :
+    ∃ m, vis s' c = vis s c ++ m := by
   obtain ⟨m, hm⟩ := hp
-  exact ⟨aft c m, by simp [Server.later, ← hm, aft]⟩
+  have hs : s'.shows = s.shows := by funext e; simp [Server.shows, hv]
+  exact ⟨(aft c m).filter s.shows, by simp [vis, Server.later, ← hm, aft, hs]⟩
 
-theorem inv_mono {s s' : Server} {c0 : Int} {st : CState} (hp : s.log <+: s'.log) (h : Inv s c0 st) : Inv s' c0 st := by
+theorem inv_mono {s s' : Server} {c0 : Int} {st : CState} (hp : s.log <+: s'.log) (hv : s.inclInternal = s'.inclInternal)
+    (h : Inv s c0 st) : Inv s' c0 st := by
   obtain ⟨j, ho, hl⟩ := h
-  obtain ⟨m, hm⟩ := later_of_prefix hp c0
-  have key : (s.later c0).take j = (s'.later c0).take (min j (s.later c0).length) := by
+  obtain ⟨m, hm⟩ := later_of_prefix hp hv c0
+  have key : (vis s c0).take j = (vis s' c0).take (min j (vis s c0).length) := by
     rw [hm, List.take_append_of_le_length (Nat.min_le_right _ _)]
-    by_cases hj : j ≤ (s.later c0).length
+    by_cases hj : j ≤ (vis s c0).length
     · rw [Nat.min_eq_left hj]
     · rw [Nat.min_eq_right (by omega), List.take_of_length_le (by omega), List.take_of_length_le (Nat.le_refl _)]
   exact ⟨_, by rw [ho, key], by rw [hl, key]⟩
@@ -262,21 +265,22 @@ theorem Ctx.of_prefix {s top : Server} (h : Ctx P top) (hp : s.log <+: top.log) 
 pending in the final log, `last` is the sequence of the last one queued, no validation error; the
 requests sent so far keep their invariant, one request per scripted connection at most. -/
 theorem runLive_inv {top : Server} (h : Ctx P top) (c0 : Int) : ∀ (script : List (Server × Conn)) (st : CState) (prev : Server),
-    Inv prev c0 st → prev.log <+: top.log → (∀ s ∈ script, prev.log <+: s.1.log) →
+    Inv prev c0 st → prev.log <+: top.log → prev.inclInternal = top.inclInternal → (∀ s ∈ script, prev.log <+: s.1.log) →
     (script.map (·.1.log)).Pairwise (· <+: ·) → (∀ s ∈ script, s.1.log <+: top.log) →
-    (∀ s ∈ script, s.2.raw = none) →
+    (∀ s ∈ script, s.1.inclInternal = top.inclInternal) → (∀ s ∈ script, s.2.raw = none) →
     Inv top c0 (runLive P st script).1 ∧ (runLive P st script).2 ≠ .errParse ∧
     (ReqsOk c0 st → ReqsOk c0 (runLive P st script).1) ∧
     (runLive P st script).1.reqs.length ≤ st.reqs.length + script.length := by
   intro script
   induction script with
-  | nil => intro st prev hinv hpt _ _ _ _; exact ⟨inv_mono hpt hinv, by simp [runLive], fun hq => hq, by simp [runLive]⟩
+  | nil => intro st prev hinv hpt hpv _ _ _ _ _; exact ⟨inv_mono hpt hpv hinv, by simp [runLive], fun hq => hq, by simp [runLive]⟩
   | cons sc rest ih =>
-    intro st prev hinv hpt hprev hchain hbelow hraw
+    intro st prev hinv hpt hpv hprev hchain hbelow hview hraw
     obtain ⟨s, c⟩ := sc
     have hc : c.raw = none := hraw (s, c) (by simp)
     have hs_top : s.log <+: top.log := hbelow (s, c) (by simp)
-    have hinv_s : Inv s c0 st := inv_mono (hprev (s, c) (by simp)) hinv
+    have hs_v : s.inclInternal = top.inclInternal := hview (s, c) (by simp)
+    have hinv_s : Inv s c0 st := inv_mono (hprev (s, c) (by simp)) (hpv.trans hs_v.symm) hinv
     have hstep := connect_inv (h.of_prefix hs_top) c0 st hinv_s c.hb c.fault
     have hreqs := connect_reqs (P := P) st (s.serve st.last c.hb) c.fault
     obtain ⟨more, hout⟩ := connect_out_extends (P := P) st (s.serve st.last c.hb) c.fault
@@ -290,16 +294,16 @@ theorem runLive_inv {top : Server} (h : Ctx P top) (c0 : Int) : ∀ (script : Li
       have hq : ReqsOk c0 st → ReqsOk c0 st' := fun hq => reqsOk_step hq (tracks_of_inv hinv_s) hreqs hout
       cases r with
       | some r =>
-        refine ⟨inv_mono hs_top hstep.1, ?_, hq, ?_⟩
+        refine ⟨inv_mono hs_top hs_v hstep.1, ?_, hq, ?_⟩
         · intro he
           simp only at he
           exact hstep.2 (by simp [he])
         · simp only [hreqs, List.length_append, List.length_cons, List.length_nil]
           omega
       | none =>
-        obtain ⟨g1, g2, g3, g4⟩ := ih st' s hstep.1 hs_top
+        obtain ⟨g1, g2, g3, g4⟩ := ih st' s hstep.1 hs_top hs_v
           (fun x hx => hchain.1 x.1.log (List.mem_map.mpr ⟨x, hx, rfl⟩)) hchain.2
-          (fun x hx => hbelow x (by simp [hx])) (fun x hx => hraw x (by simp [hx]))
+          (fun x hx => hbelow x (by simp [hx])) (fun x hx => hview x (by simp [hx])) (fun x hx => hraw x (by simp [hx]))
         refine ⟨g1, g2, fun hq0 => g3 (hq hq0), ?_⟩
         simp only [hreqs, List.length_append, List.length_cons, List.length_nil] at g4
         simp only [List.length_cons]
@@ -337,8 +341,8 @@ theorem drop_step {s : Server} (h : Ctx P s) (c0 : Int) (st : CState) (hinv : In
     ((connect P st (respFor s st c) c.fault).2 = none ∧ Inv s c0 (connect P st (respFor s st c) c.fault).1 ∧
       (connect P st (respFor s st c) c.fault).1.attempts = c.fault.counter st.attempts) ∨
     ((connect P st (respFor s st c) c.fault).2 = some .done ∧ s.complete = true ∧
-      (connect P st (respFor s st c) c.fault).1.out = emit (s.later c0) ∧
-      (connect P st (respFor s st c) c.fault).1.last = lastOf c0 (s.later c0)) := by
+      (connect P st (respFor s st c) c.fault).1.out = emit (vis s c0) ∧
+      (connect P st (respFor s st c) c.fault).1.last = lastOf c0 (vis s c0)) := by
   obtain ⟨j, ho, hl⟩ := hinv
   simp only [respFor, hraw, Option.getD_none]
   rcases serve_cases h c0 st j hl c.hb with ⟨hs, hd, hcomp⟩ | ⟨hs, _⟩
@@ -356,9 +360,9 @@ theorem drop_step {s : Server} (h : Ctx P s) (c0 : Int) (st : CState) (hinv : In
       exact ⟨h4 (Or.inr ⟨n, hf⟩), hcomp, by rw [h1, g1], by rw [h2, g2]⟩
   · rw [hs]
     left
-    have hok : EvsOk P ((s.later c0).drop j) := fun e he => h.later_ok c0 e (List.mem_of_mem_drop he)
+    have hok : EvsOk P ((vis s c0).drop j) := fun e he => h.later_ok c0 e (List.mem_of_mem_drop he)
     obtain ⟨j', _, h1, h2, _, _, h5, h6⟩ :=
-      connect_stream h.brk st _ c.hb (((s.later c0).drop j).any (·.terminal)) hok c.fault
+      connect_stream h.brk st _ c.hb ((s.later st.last).any (·.terminal)) hok c.fault
     obtain ⟨g1, g2⟩ := inv_extend ho hl h1 h2
     rcases hf with hf | ⟨n, hf⟩
     · obtain ⟨ha, hr2⟩ := h6 hf
@@ -378,26 +382,28 @@ theorem runLive_single (st : CState) (top : Server) (c : Conn) : runLive P st [(
 /-- **Exactly once over a growing log.** -/
 theorem runLive_exact {top : Server} (h : Ctx P top) (c0 : Int) (fin : List Nat) :
     ∀ (script : List (Server × Conn)) (st : CState) (prev : Server),
-    Inv prev c0 st → prev.log <+: top.log → (∀ s ∈ script, prev.log <+: s.1.log) →
+    Inv prev c0 st → prev.log <+: top.log → prev.inclInternal = top.inclInternal → (∀ s ∈ script, prev.log <+: s.1.log) →
     (script.map (·.1.log)).Pairwise (· <+: ·) → (∀ s ∈ script, s.1.log <+: top.log) →
+    (∀ s ∈ script, s.1.inclInternal = top.inclInternal) →
     (∀ s ∈ script, s.1.statusDone = true → s.1.log = top.log) →
     DropsOnly (script.map (·.2)) → peakFailures st.attempts (script.map (·.2.fault)) ≤ P.maxR →
-    (runLive P st (script ++ [(top, { fault := .none, hb := fin })])).1.out = emit (top.later c0) ∧
-    (runLive P st (script ++ [(top, { fault := .none, hb := fin })])).1.last = lastOf c0 (top.later c0) ∧
+    (runLive P st (script ++ [(top, { fault := .none, hb := fin })])).1.out = emit (vis top c0) ∧
+    (runLive P st (script ++ [(top, { fault := .none, hb := fin })])).1.last = lastOf c0 (vis top c0) ∧
     ((runLive P st (script ++ [(top, { fault := .none, hb := fin })])).2 = .done ∨
       (runLive P st (script ++ [(top, { fault := .none, hb := fin })])).2 = .pending) ∧
     (top.log.any (·.terminal) = true → (runLive P st (script ++ [(top, { fault := .none, hb := fin })])).2 = .done) := by
   intro script
   induction script with
   | nil =>
-    intro st prev hinv hpt _ _ _ _ _ hbud
+    intro st prev hinv hpt hpv _ _ _ _ _ _ hbud
     rw [List.nil_append, runLive_single]
-    exact run_exact h c0 fin [] st (by simp [DropsOnly]) (inv_mono hpt hinv) hbud
+    exact run_exact h c0 fin [] st (by simp [DropsOnly]) (inv_mono hpt hpv hinv) hbud
   | cons sc rest ih =>
-    intro st prev hinv hpt hprev hchain hbelow hsettled hdrops hbud
+    intro st prev hinv hpt hpv hprev hchain hbelow hview hsettled hdrops hbud
     obtain ⟨s, c⟩ := sc
     have hs_top : s.log <+: top.log := hbelow (s, c) (by simp)
-    have hinv_s : Inv s c0 st := inv_mono (hprev (s, c) (by simp)) hinv
+    have hs_v : s.inclInternal = top.inclInternal := hview (s, c) (by simp)
+    have hinv_s : Inv s c0 st := inv_mono (hprev (s, c) (by simp)) (hpv.trans hs_v.symm) hinv
     obtain ⟨hraw, hfault⟩ := hdrops c (by simp)
     simp only [List.map_cons] at hbud hchain
     obtain ⟨hb1, hb2⟩ := peak_cons hbud
@@ -411,14 +417,14 @@ theorem runLive_exact {top : Server} (h : Ctx P top) (c0 : Int) (fin : List Nat)
       rcases hstep with ⟨hnone, hinv', hatt⟩ | ⟨hdone, hcomp, ho, hl⟩
       · subst hnone
         simp only
-        apply ih st' s hinv' hs_top _ hchain'.2 (fun x hx => hbelow x (by simp [hx]))
-          (fun x hx => hsettled x (by simp [hx])) (fun x hx => hdrops x (by simp [hx]))
+        apply ih st' s hinv' hs_top hs_v _ hchain'.2 (fun x hx => hbelow x (by simp [hx]))
+          (fun x hx => hview x (by simp [hx])) (fun x hx => hsettled x (by simp [hx])) (fun x hx => hdrops x (by simp [hx]))
         · rw [hatt]; exact hb2
         · intro x hx
           exact hchain'.1 x.1.log (List.mem_map.mpr ⟨x, hx, rfl⟩)
       · subst hdone
         have hfull : s.log = top.log := complete_settled hs_top h.log (hsettled (s, c) (by simp)) hcomp
-        have hlat : s.later c0 = top.later c0 := by simp [Server.later, hfull]
+        have hlat : vis s c0 = vis top c0 := by simp [vis, Server.later, Server.shows, hfull, hs_v]
         simp only
         exact ⟨by rw [ho, hlat], by rw [hl, hlat], by simp, by simp⟩
 
